@@ -52,6 +52,10 @@ where CL03<CS>: Scheme<PubKey = CL03PublicKey, PrivKey = CL03SecretKey>, CS::Has
         if n > 3 && trusted && u.len() != 1 && u.len() != n { continue; }
         roots.push(Root { id: format!("{}/n{}/hidden{:?}/{}", CS::NAME, n, u, if trusted { "trusted" } else { "untrusted" }), n, u: u.clone(), trusted, kind: Kind::Flow });
     } } }
+    // boundary attribute values (0, 1, 2^lm - 1) at revealed and at hidden positions
+    for (n, u) in [(2usize, vec![0usize]), (2, vec![1]), (3, vec![1])] { for bv in ["zero", "one", "max"] { for at in ["revealed", "hidden"] {
+        roots.push(Root { id: format!("{}/n{}/hidden{:?}/untrusted/boundary-{}-{}", CS::NAME, n, u, bv, at), n, u: u.clone(), trusted: false, kind: Kind::Flow });
+    } } }
     // leaf edits: one proof per (n, |U|) class (untrusted), plus one trusted proof; split in chunks for parallelism
     let mut classes: Vec<(usize, Vec<usize>, bool)> = vec![];
     for n in 1..=3usize { for k in 1..=n { classes.push((n, (n - k..n).collect(), false)); } }
@@ -64,7 +68,12 @@ where CL03<CS>: Scheme<PubKey = CL03PublicKey, PrivKey = CL03SecretKey>, CS::Has
     par_for(&roots, |_, r| {
         if !env.want(&r.id) || env.ctx.out_of_time() { return; }
         let n = r.n;
-        let m = distinct_attrs(seed, "c14", n);
+        let mut m = distinct_attrs(seed, "c14", n);
+        if let Some(tag) = r.id.rsplit('/').next().filter(|t| t.starts_with("boundary-")) {
+            let val = if tag.contains("zero") { Integer::from(0) } else if tag.contains("one") { Integer::from(1) } else { pow2(CS::lm) - 1u32 };
+            let pos = if tag.ends_with("hidden") { r.u[0] } else { (0..n).find(|i| !r.u.contains(i)).unwrap_or(0) };
+            m[pos] = val;
+        }
         let bases = Bases(w.bases.0[..n].to_vec());
         let det0 = json!({"suite": CS::NAME, "n": n, "hidden": r.u, "trusted_party": r.trusted});
         let f = match holder::<CS>(w, n, &m, &r.u, r.trusted) { O::Ok(f) => f, o => { env.ctx.violation("C14:holder-side-failed", &o.describe(), env.case(&r.id, det0)); return; } };
@@ -177,6 +186,12 @@ where CL03<CS>: Scheme<PubKey = CL03PublicKey, PrivKey = CL03SecretKey>, CS::Has
                             for key in keys { x["CL03"][key] = qj["CL03"][key].clone(); }
                             if let Some(z) = from_json::<ZKPoK<CL03<CS>>>(&x) { refuse(format!("{} taken from a proof about another commitment", what), cls, &z, f.c.cl03Commitment(), ct, &w.pk, &w.sk, &bases, cpk, &r.u); }
                         }
+                        // one element of one vector only (a check that looks at the vectors as a whole must not be satisfied by the rest)
+                        for key in ["proofs_commited_mi", "range_proofs_mi"] { for k in 0..r.u.len() {
+                            let mut x = to_json(&f.zkpok);
+                            x["CL03"][key][k] = qj["CL03"][key][k].clone();
+                            if let Some(z) = from_json::<ZKPoK<CL03<CS>>>(&x) { refuse(format!("{}[{}] alone taken from a proof about another commitment", key, k), "sub-proof-transplant:single-element", &z, f.c.cl03Commitment(), ct, &w.pk, &w.sk, &bases, cpk, &r.u); }
+                        } }
                     }
                 }
                 // the issuer's own inputs in other spellings / inconsistent combinations
